@@ -7,7 +7,8 @@
   = `runMembers`, returns the heads that are MERGING afterwards), `and_clause_phase1_real` (phase 1 of GroupVM through the real function); the same for the branch heads of an or-group of single atoms:
   `advStep_branch`, `advanceHeadFront_branches`, `or_group_phase1_real` (every matching branch head ends MERGING and is handed back).  A head that ends on an action (`send`):
   `forIn_readonly_false`, `advanceHeadFront_one_action`, `group_exit_real` (the forking head leaves the group and is handed back as actionable).  The merging loop's call on the MERGING member
-  head of an and-group, with the nested call on the forking head: `and_group_merge_real`.
+  head of an and-group, with the nested call on the forking head: `and_group_merge_real`; the same for ONE MERGING branch head of an
+  or-group of single atoms: `or_group_merge_real`.
 -/
 import NemoVerif.Lemmas.GroupCoreVMMirror
 set_option linter.unusedSimpArgs false
@@ -848,6 +849,127 @@ theorem and_group_merge_real (fuel : Nat) (s : VM) (f : FUid) (i : Inst) (x : In
     rw [hv2, hv1, hrp1]; simp [setPosCore]
   have hndv2 : ((hview i2).map (·.1)).Nodup := by rw [hv2']; simp
   obtain ⟨rd2, hfr2, hrp2, hrs2⟩ := findHead_of_mem_hview i2 hndv2 r (pe + 4) .active (by rw [hv2']; simp)
+  have hgone2 : i2.findHead uj.1 = none := by
+    cases hf : i2.findHead uj.1 with
+    | none => rfl
+    | some cd =>
+      have := mem_hview_of_findHead i2 uj.1 cd hf
+      rw [hv2'] at this
+      simp only [List.mem_singleton, Prod.mk.injEq] at this
+      exact absurd this.1.symm hrh
+  have hrange2 : ∀ o ∈ i2.heads, o.pos < cfg.elements.size := by
+    intro o ho
+    have hmo : (o.uid, o.pos, o.status) ∈ hview i2 := by simp only [hview, List.mem_map]; exact ⟨o, ho, rfl⟩
+    rw [hv2'] at hmo
+    simp only [List.mem_singleton, Prod.mk.injEq] at hmo
+    omega
+  have hclr2' : s2.r.cleared.contains (f, uj.1) = false := by rw [hclr2, hclr1]; exact hclr
+  have hel2 : cfg.elements[rd2.pos]? = some (.sendOp spec) := by
+    rw [hrp2, ← hc2]; simp [getElem!_pos, hsz4]
+  refine ⟨s2, i2, x1, ?_, F2, hv2'⟩
+  unfold advanceHeadFront
+  simp only [List.forIn_cons, List.forIn_nil, bind, EStateM.bind, pure, EStateM.pure, getInst?, getIx, get, getThe, MonadStateOf.get,
+    EStateM.get, F.hi, cfgOfInst, getInstX, getInstX?, getRest, F.hx, getCfg, F.hc, getHead?, Option.bind, hfh, hstat,
+    show decide (HeadStatus.merging = HeadStatus.inactive) = false from by decide, hstarted, show FlowStatus.started.listening = true from rfl,
+    Bool.not_true, Bool.or_false, Bool.false_eq_true, if_false, hq, List.isEmpty_nil, Bool.and_false,
+    show (HeadStatus.merging = HeadStatus.active) = False from by simp,
+    getInst, show (FlowStatus.started = FlowStatus.waiting) = False from by simp,
+    attemptPy, tryCatch, tryCatchThe, MonadExceptOf.tryCatch, EStateM.tryCatch, hsl, List.isEmpty_cons, hnest,
+    List.contains_nil, Bool.not_false, if_true, List.nil_append,
+    F2.hi, hgone2, hclr2', Option.isSome_none, Bool.false_and,
+    show decide (HeadStatus.inactive = HeadStatus.merging) = false from by decide,
+    show (FlowStatus.started = FlowStatus.stopping) = False from by simp, show (FlowStatus.started = FlowStatus.starting) = False from by simp,
+    Bool.and_self]
+  generalize hbody : (fun (o : Head) (r : Bool) => _) = body
+  have hmemh : rd2 ∈ i2.heads := List.mem_of_find?_eq_some hfr2
+  have hscan : forIn i2.heads true body s2 = .ok false s2 := by
+    refine (forIn_readonly_false body s2 i2.heads ?_ ?_).2 rd2 hmemh ?_ true
+    · intro o ho
+      rw [← hbody]
+      by_cases hin : o.status ≠ HeadStatus.inactive
+      · simp only [hin, if_true, ne_eq, not_false_eq_true]
+        have hlt := hrange2 o ho
+        have hsome : cfg.elements[o.pos]? = some cfg.elements[o.pos] := by simp [hlt]
+        rw [hsome]
+        cases cfg.elements[o.pos] <;> first
+          | rfl
+          | (simp only []; split <;> rfl)
+      · simp only [hin, if_false]; rfl
+    · intro o ho acc
+      rw [← hbody]
+      by_cases hin : o.status ≠ HeadStatus.inactive
+      · simp only [hin, if_true, ne_eq, not_false_eq_true]
+        have hlt := hrange2 o ho
+        have hsome : cfg.elements[o.pos]? = some cfg.elements[o.pos] := by simp [hlt]
+        rw [hsome]
+        cases cfg.elements[o.pos] <;> first
+          | exact ⟨_, rfl⟩
+          | (simp only []; split <;> exact ⟨_, rfl⟩)
+      · simp only [hin, if_false]
+        exact ⟨_, rfl⟩
+    · intro b
+      rw [← hbody]
+      simp only [hrs2, show (HeadStatus.active ≠ HeadStatus.inactive) = True from by simp, if_true, hel2]
+      rfl
+  rw [hscan]
+  simp only [Bool.or_false, Bool.false_eq_true, if_false]
+  cases cfg.elements[0]? <;>
+    simp only [pure, EStateM.pure, Bool.false_eq_true, if_false, List.filter_cons, List.filter_nil, F2.hi, hfr2, hrs2,
+      show decide (HeadStatus.active ≠ HeadStatus.inactive) = true from by decide, if_true, bind, EStateM.bind]
+
+/-! ### the merging loop's call: the MERGING branch head of an or-group of single atoms (one branch matched) -/
+
+/-- **The merging loop's call of CoreVM's real `_advance_head_front` on the MERGING branch head of an or-group of single atoms** (one
+    branch matched; the head phase 1 handed back): `slide` merges — the forking head takes over, every branch head is deleted —, the forking head comes back as a new
+    head and the NESTED call of `_advance_head_front` moves it over `CatchPatternFailure(None)` onto the statement after the group (the
+    marker `send`), where it is actionable; back in the outer call the merged head is gone (detached, not cleared), nothing is finished or
+    aborted, and the forking head is what is handed to the interpreter's main loop. -/
+theorem or_group_merge_real (fuel : Nat) (s : VM) (f : FUid) (i : Inst) (x : InstX) (cfg : FlowCfg) (l mu : String) (pe fp : Nat)
+    (r : HUid) (us : List (HUid × Nat)) (ms : List Br) (j : Nat) (uj : HUid × Nat)
+    (spec : Spec) (nm : String)
+    (F : FlowAt s f i x cfg) (C : OrShape cfg l mu pe)
+    (hv : hview i = (r, fp, HeadStatus.inactive) :: renderB (pe + 1) us ms)
+    (hlen : us.length = ms.length) (hndu : (r :: us.map (·.1)).Nodup)
+    (hju : us[j]? = some uj) (hjm : ms[j]? = some Br.merging)
+    (hone : ∀ j' m', ms[j']? = some m' → j' ≠ j → ∃ a, m' = Br.single a)
+    (hfu : OMap.lookup mu x.forkUids = some r)
+    (hhx : ((OMap.lookup (f, r) s.r.hx).getD {}).childHeadUids = us.map (·.1))
+    (hleaf : ∀ c ∈ us.map (·.1), ((OMap.lookup (f, c) s.r.hx).getD {}).childHeadUids = [])
+    (hmu : mu ∉ us.map (·.1)) (hfp : fp ≠ pe + 1)
+    (hstarted : i.status = .started) (hq : s.r.queue = []) (hclr : s.r.cleared.contains (f, uj.1) = false)
+    (hsz4 : pe + 3 < cfg.elements.size) (hc1 : cfg.elements[pe + 2]! = .catchFail none) (hc2 : cfg.elements[pe + 3]! = .sendOp spec)
+    (hp : PlainSpec spec nm) (hargs : spec.args = []) (hint : internalEvents.contains nm = false)
+    (hcl : ((OMap.lookup (f, uj.1) s.r.hx).getD {}).catchLabels.isEmpty = false) :
+    ∃ s' i' x', advanceHeadFront (fuel + 5) [(f, uj.1)] s = .ok [(f, r)] s' ∧ FlowAt s' f i' x' cfg ∧
+      hview i' = [(r, pe + 3, HeadStatus.active)] := by
+  have hndv : ((hview i).map (·.1)).Nodup := by
+    rw [hv, List.map_cons, renderB_fst _ _ _ hlen]; exact hndu
+  have hmem_h : (uj.1, pe + 1, HeadStatus.merging) ∈ hview i := by
+    rw [hv]; exact List.mem_cons_of_mem _ (mem_renderB (pe + 1) us ms j uj Br.merging hju hjm)
+  obtain ⟨hd, hfh, hpos, hstat⟩ := findHead_of_mem_hview i hndv uj.1 (pe + 1) .merging hmem_h
+  have hujmem : uj.1 ∈ us.map (·.1) := List.mem_map.2 ⟨uj, List.mem_of_getElem? hju, rfl⟩
+  have hrh : r ≠ uj.1 := fun e => (List.nodup_cons.1 hndu).1 (e ▸ hujmem)
+  -- the merge
+  obtain ⟨s1, i1, x1, hsl, F1, ho1, hv1, _, hst1, hclr1, y', hy1, hy2⟩ :=
+    or_branch_completes fuel s f i x cfg l mu pe fp r us ms j uj F C hv hlen hndu hju hjm hone hfu hhx hleaf hmu hfp
+  -- the nested call: the forking head leaves the group
+  have hndv1 : ((hview i1).map (·.1)).Nodup := by rw [hv1]; simp
+  obtain ⟨rd1, hfr1, hrp1, hrs1⟩ := findHead_of_mem_hview i1 hndv1 r (pe + 1) .active (by rw [hv1]; simp)
+  have hrange1 : ∀ o ∈ i1.heads, o.pos < cfg.elements.size := by
+    intro o ho
+    have hmo : (o.uid, o.pos, o.status) ∈ hview i1 := by simp only [hview, List.mem_map]; exact ⟨o, ho, rfl⟩
+    rw [hv1] at hmo
+    simp only [List.mem_singleton, Prod.mk.injEq] at hmo
+    omega
+  have H1 : HeadAt s1 f r i1 x1 cfg rd1 :=
+    { hi := F1.hi, hx := F1.hx, hc := F1.hc, hh := hfr1, hlt := by rw [hrp1]; omega, hst := by rw [hrs1]; decide }
+  obtain ⟨s2, i2, hnest, F2, hv2, hclr2⟩ := group_exit_real (fuel + 1) s1 f r i1 x1 cfg rd1 spec nm H1 (by rw [hrp1]; exact hsz4)
+    (by rw [hrp1]; exact hc1) (by rw [hrp1]; exact hc2) hp hargs hint
+    (by rw [hy1]; simp only [Option.getD_some]; rw [hy2]; exact hcl) hrs1 (by rw [hst1]; exact hstarted) hndv1 hrange1
+  have hv2' : hview i2 = [(r, pe + 3, HeadStatus.active)] := by
+    rw [hv2, hv1, hrp1]; simp [setPosCore]
+  have hndv2 : ((hview i2).map (·.1)).Nodup := by rw [hv2']; simp
+  obtain ⟨rd2, hfr2, hrp2, hrs2⟩ := findHead_of_mem_hview i2 hndv2 r (pe + 3) .active (by rw [hv2']; simp)
   have hgone2 : i2.findHead uj.1 = none := by
     cases hf : i2.findHead uj.1 with
     | none => rfl
